@@ -201,6 +201,12 @@ SHAPES = {
     "user-variable-in-lcd-geometry": "width = 20\nheight = 4\npanel = LCD(rs=22, en=23, d4=24, d5=25, d6=26, d7=27, cols=width, rows=height)\npanel.write(0, 0, 'hi')\n",
     "user-variable-in-lcd-i2c-address": "addr = 39\npanel = LCD(i2c_addr=addr)\npanel.write(0, 0, 'hi')\n",
     "user-variable-as-pin": "p = 9\nled = Led(p)\nbtn = Button(p + 1)\nmon = SerialMonitor(9600)\nwhile True:\n    led.toggle()\n    mon.write(btn.is_pressed())\n    sleep(5)\n",
+    "helper-reads-global-list-bound-later": "mon = SerialMonitor(9600)\ndef second():\n    return xs[1]\nxs = [4, 5, 6]\nr = second()\nmon.write(r)\n",
+    "helper-reads-global-list-bound-earlier": "mon = SerialMonitor(9600)\nxs = [4, 5, 6]\ndef second():\n    return xs[1]\nr = second()\nmon.write(r)\n",
+    "continue-in-elif-arm-of-main-loop": "mon = SerialMonitor(9600)\nn = 0\nwhile True:\n    n = n + 1\n    if n == 1:\n        mon.write('one')\n    elif n % 2 == 0:\n        continue\n    else:\n        mon.write('odd')\n    sleep(5)\n",
+    "continue-in-nested-if-of-main-loop": "mon = SerialMonitor(9600)\nn = 0\nwhile True:\n    n = n + 1\n    if n > 1:\n        if n % 2 == 0:\n            mon.write('e')\n        elif n % 3 == 0:\n            continue\n    mon.write(n)\n    sleep(5)\n",
+    "break-and-continue-in-elif-arm-of-nested-loop": "mon = SerialMonitor(9600)\nwhile True:\n    for i in range(5):\n        if i == 0:\n            mon.write('z')\n        elif i == 1:\n            continue\n        elif i == 3:\n            break\n        mon.write(i)\n    sleep(5)\n",
+    "two-lcd-kinds-i2c-first": "l2 = LCD(i2c_addr=0x27)\nl1 = LCD(rs=22, en=23, d4=24, d5=25, d6=26, d7=27)\nl1.write(0, 0, 'a')\nl2.write(0, 0, 'b')\n",
     "try-except": "mon = SerialMonitor(9600)\ntry:\n    x = 5\nexcept Exception:\n    x = 0\nmon.write(x)\n",
     "lists-and-len": "mon = SerialMonitor(9600)\nxs = [1, 2, 3]\nname = 'abc'\nwhile True:\n    xs.append(4)\n    mon.write(len(name))\n    mon.write(xs[0])\n    sleep(5)\n",
     "list-comprehension": "mon = SerialMonitor(9600)\nsq = [i * i for i in range(5)]\nmon.write(sq[2])\n",
